@@ -870,6 +870,12 @@ func (l *irLoader) newBinaryExprFilter(filter ir.FilterExpr, info *filterInfo) (
 
 	lhs := filter.Args[0]
 	rhs := filter.Args[1]
+	for _, operand := range [...]ir.FilterExpr{lhs, rhs} {
+		// Operands are not loaded with newFilter(), so record their variables here.
+		if operand.HasVar() {
+			info.Vars[operand.Value.(string)] = struct{}{}
+		}
+	}
 	var rhsValue constant.Value
 	switch rhs.Op {
 	case ir.FilterStringOp:
